@@ -9,10 +9,13 @@ package main
 // coq/run/C16Run.v; the property oracles below decide violations on the implementation alone.
 
 import (
+	"context"
 	"errors"
 	"fmt"
 	"math/rand"
 	"os"
+	"os/exec"
+	"runtime"
 	"strings"
 	"sync"
 	"time"
@@ -33,14 +36,17 @@ const (
 )
 
 type c16Actor struct {
-	k       int
-	mu      sync.Mutex
-	hooks   int
-	execs   int
-	helper  pong.PingPongSignalHelper
-	entered chan uint32 // Activate entered with this object id (nil: activate at once)
-	proceed chan bool   // what Activate returns
-	gate    chan struct{}
+	k         int
+	mu        sync.Mutex
+	hooks     int
+	execs     int
+	helper    pong.PingPongSignalHelper
+	started   int         // entries into the method (before the gate)
+	processed int         // mails the object's mailbox goroutine has finished handling (counted by c16Wrap)
+	cond      *sync.Cond  // signalled on every change of processed
+	entered   chan uint32 // Activate entered with this object id (nil: activate at once)
+	proceed   chan bool   // what Activate returns
+	gate      chan struct{}
 }
 
 func (a *c16Actor) Activate(act bus.Activation, h pong.PingPongSignalHelper) error {
@@ -59,6 +65,8 @@ func (a *c16Actor) OnTerminate() { a.mu.Lock(); a.hooks++; a.mu.Unlock() }
 func (a *c16Actor) Hello(s string) (string, error) {
 	a.mu.Lock()
 	g := a.gate
+	a.started++
+	a.cond.Broadcast()
 	a.mu.Unlock()
 	if g != nil {
 		select {
@@ -76,6 +84,68 @@ func (a *c16Actor) counts() (int, int) {
 	a.mu.Lock()
 	defer a.mu.Unlock()
 	return a.hooks, a.execs
+}
+
+// c16Wrap is the Actor handed to the service: the generated object, plus a count of the mails its
+// mailbox goroutine has finished with.  This is the event the harness waits on before it observes
+// the effects of a frame — no guess about timing is involved.
+type c16Wrap struct {
+	inner bus.Actor
+	a     *c16Actor
+}
+
+func (w *c16Wrap) Receive(m *net.Message, from bus.Channel) error {
+	err := w.inner.Receive(m, from)
+	w.a.mu.Lock()
+	w.a.processed++
+	w.a.cond.Broadcast()
+	w.a.mu.Unlock()
+	return err
+}
+func (w *c16Wrap) Activate(act bus.Activation) error { return w.inner.Activate(act) }
+func (w *c16Wrap) OnTerminate()                      { w.inner.OnTerminate() }
+
+func c16Object(a *c16Actor) bus.Actor { return &c16Wrap{inner: pong.PingPongObject(a), a: a} }
+
+// waitStarted waits until the method has been entered n times.
+func (a *c16Actor) waitStarted(n int, d time.Duration) bool {
+	deadline := time.Now().Add(d)
+	a.mu.Lock()
+	defer a.mu.Unlock()
+	for a.started < n {
+		if time.Now().After(deadline) {
+			return false
+		}
+		a.mu.Unlock()
+		time.Sleep(time.Millisecond)
+		a.mu.Lock()
+	}
+	return true
+}
+
+// waitProcessed waits until the mailbox goroutine of the actor has finished n mails.
+func (a *c16Actor) waitProcessed(n int, d time.Duration) bool {
+	deadline := time.Now().Add(d)
+	stop := make(chan struct{})
+	defer close(stop)
+	go func() {
+		select {
+		case <-time.After(d + 10*time.Millisecond):
+			a.mu.Lock()
+			a.cond.Broadcast()
+			a.mu.Unlock()
+		case <-stop:
+		}
+	}()
+	a.mu.Lock()
+	defer a.mu.Unlock()
+	for a.processed < n {
+		if time.Now().After(deadline) {
+			return false
+		}
+		a.cond.Wait()
+	}
+	return true
 }
 
 type c16Phase int
@@ -115,6 +185,7 @@ type c16Run struct {
 	queued           [][2]uint32 // (conn, message id) of calls waiting behind a gate, per actor: flattened below
 	queuedOf         [][][2]uint32
 	lastPost         []bool
+	enq              []int           // mails that entered the mailbox of each actor
 	owner            map[uint32]int  // id -> actor that was last added successfully under it
 	pendingBox       map[uint32]bool // the mailbox last installed under the id is the placeholder's (never answers)
 	subs             []*c16Sub
@@ -146,6 +217,7 @@ func c16NewRun(res *hx.Result, rng *hx.Rng) (*c16Run, error) {
 		nextSeed: int64(rng.Intn(1 << 30)), allow1: rng.Chance(0.3)}
 	for k := 0; k < c16Actors; k++ {
 		a := &c16Actor{k: k}
+		a.cond = sync.NewCond(&a.mu)
 		if k > 0 {
 			a.entered = make(chan uint32, 1)
 			a.proceed = make(chan bool, 1)
@@ -158,9 +230,10 @@ func c16NewRun(res *hx.Result, rng *hx.Rng) (*c16Run, error) {
 	r.gated = make([]bool, c16Actors)
 	r.queuedOf = make([][][2]uint32, c16Actors)
 	r.lastPost = make([]bool, c16Actors)
+	r.enq = make([]int, c16Actors)
 	r.termSent = make([]bool, c16Actors)
 	r.reused = make([]bool, c16Actors)
-	svc, err := env.srv.NewService("probe", pong.PingPongObject(r.actors[0]))
+	svc, err := env.srv.NewService("probe", c16Object(r.actors[0]))
 	if err != nil {
 		return nil, err
 	}
@@ -333,7 +406,7 @@ func (r *c16Run) opAddBegin(k int, seed int64) {
 	r.addDone[k] = done
 	rand.Seed(seed)
 	go func() {
-		id, err := r.svc.Add(pong.PingPongObject(a))
+		id, err := r.svc.Add(c16Object(a))
 		done <- c16AddRes{id, err}
 	}()
 	var idx *uint32
@@ -594,6 +667,21 @@ func (r *c16Run) opSend(f c16Frame) {
 	}
 	r.write(f)
 	desc := f.desc()
+	// The barrier is answered by the connection's consumer goroutine after serviceImpl.Receive has
+	// dealt with the frame: refused (the ObjectNotFound error is already here), dropped into a
+	// placeholder mailbox, or put into the mailbox of the object that owns the index.
+	conn := r.env.conns[f.conn]
+	conn.sync()
+	enqueued := hasOwner && !noAnswer && !conn.hasUntaken(f.id, 1)
+	if enqueued {
+		r.enq[owner]++
+		if !held {
+			// wait for the mailbox goroutine itself: it has finished this mail (and every earlier one)
+			if !r.actors[owner].waitProcessed(r.enq[owner], 5*time.Second) {
+				r.fail("mailbox-stalled", fmt.Sprintf("the mailbox of actor %d did not finish %s within 5 s: %s", owner, desc, r.trace()), "")
+			}
+		}
+	}
 	if held {
 		if !f.post {
 			r.queuedOf[owner] = append(r.queuedOf[owner], [2]uint32{uint32(f.conn), f.id})
@@ -660,6 +748,9 @@ func (r *c16Run) opDrain(k int) {
 	a.mu.Lock()
 	close(a.gate)
 	a.mu.Unlock()
+	if !a.waitProcessed(r.enq[k], 5*time.Second) {
+		r.fail("mailbox-stalled", fmt.Sprintf("the released mailbox of actor %d did not finish its %d mails within 5 s: %s", k, r.enq[k], r.trace()), "")
+	}
 	for _, q := range r.queuedOf[k] {
 		if r.env.conns[q[0]].waitSeen(q[1], 3*time.Second) == nil {
 			r.fail("call-unanswered", fmt.Sprintf("a call (message id %d) queued in the mailbox of actor %d got no answer within 3 s after the mailbox was released: %s", q[1], k, r.trace()), "")
@@ -1056,6 +1147,11 @@ func c16Stress(res *hx.Result, rng *hx.Rng, rounds int) {
 		for ci, c := range r.env.conns {
 			perConn[ci] = c.take()
 		}
+		for k, a := range r.actors { // the frames above bypassed opSend: every one of them has been answered
+			a.mu.Lock()
+			r.enq[k] = a.processed
+			a.mu.Unlock()
+		}
 		desc := fmt.Sprintf("3 objects with 2 subscribers each; object %d removed by 8 concurrent Service.Remove and 2 concurrent remote terminate calls, 2 method calls in flight", vid)
 		h, _ := r.actors[victim].counts()
 		if h != 1 {
@@ -1163,6 +1259,123 @@ func c16Exhaustive(res *hx.Result, rng *hx.Rng, cf *hx.Cases, maxLen int) {
 	}
 }
 
+// ---------- removal of a busy object whose mailbox is full (child process) ----------
+
+const c16MailboxCap = 10 // bus/mailbox.go, tied by TieC16.tie_mailbox_cap
+
+func init() { subcommands["c16-busy-remove"] = c16BusyChild }
+
+// c16BlockedSender: some goroutine is blocked in the channel send of serviceImpl.Receive
+func c16BlockedSender() bool {
+	buf := make([]byte, 4<<20)
+	n := runtime.Stack(buf, true)
+	for _, g := range strings.Split(string(buf[:n]), "\n\n") {
+		nl := strings.Index(g, "\n")
+		if nl > 0 && strings.Contains(g[:nl], "chan send") && strings.Contains(g, "serviceImpl).Receive") {
+			return true
+		}
+	}
+	return false
+}
+
+// c16BusyChild: object A is busy inside its method, its mailbox holds as many calls as it can, one
+// more sender is blocked between the mailbox lookup and the channel send — then A is removed.
+// The process must survive, the other objects must answer while A is stuck, and every call sent
+// to A before the removal must get its answer once A's method returns.
+func c16BusyChild(args []string) {
+	die := func(f string, a ...interface{}) {
+		fmt.Printf("C16-BUSY-FAIL: "+f+"\n", a...)
+		os.Exit(1)
+	}
+	res := hx.NewResult("child", 0, "")
+	r, err := c16NewRun(res, hx.NewRng(7))
+	if err != nil {
+		die("setup: %v", err)
+	}
+	r.opAddBegin(1, 21)
+	r.opAddEnd(1, true)
+	r.opAddBegin(2, 22)
+	r.opAddEnd(2, true)
+	if r.phase[1] != c16phLive || r.phase[2] != c16phLive {
+		die("could not add two objects")
+	}
+	a, idA, idB := r.actors[1], r.id[1], r.id[2]
+	a.mu.Lock()
+	a.gate = make(chan struct{})
+	a.mu.Unlock()
+	c0, c1 := r.env.conns[0], r.env.conns[1]
+	first := uint32(5000)
+	n := uint32(c16MailboxCap + 2)
+	c0.send(net.Call, r.sid, idA, c16Hello, first, svStr("x"))
+	if !a.waitStarted(1, 5*time.Second) {
+		die("the first call did not reach the method")
+	}
+	for i := uint32(1); i <= c16MailboxCap; i++ { // each barrier confirms that the call sits in the mailbox
+		c0.send(net.Call, r.sid, idA, c16Hello, first+i, svStr("x"))
+		if !c0.sync() {
+			die("call %d of %d did not enter the mailbox", i, c16MailboxCap)
+		}
+	}
+	c0.send(net.Call, r.sid, idA, c16Hello, first+n-1, svStr("x")) // no room: its sender blocks in Receive
+	blocked := false
+	for dl := time.Now().Add(5 * time.Second); time.Now().Before(dl) && !blocked; {
+		if blocked = c16BlockedSender(); !blocked {
+			time.Sleep(2 * time.Millisecond)
+		}
+	}
+	fmt.Printf("sender blocked in serviceImpl.Receive: %v\n", blocked)
+	if err := r.svc.Remove(idA); err != nil {
+		die("Remove of the busy object failed: %v", err)
+	}
+	fmt.Println("removed")
+	for i, obj := range []uint32{idB, 1} {
+		id := uint32(6000 + i)
+		c1.send(net.Call, r.sid, obj, c16Hello, id, svStr("x"))
+		if m := c1.waitSeen(id, 5*time.Second); m == nil || m.Header.Type != net.Reply {
+			die("object %d does not answer while the removed object is still busy", obj)
+		}
+	}
+	a.mu.Lock()
+	close(a.gate)
+	a.mu.Unlock()
+	for i := uint32(0); i < n; i++ {
+		if c0.waitSeen(first+i, 5*time.Second) == nil {
+			die("call %d sent to the object before its removal was never answered", i)
+		}
+	}
+	if h, _ := a.counts(); h != 1 {
+		die("OnTerminate of the removed object ran %d times", h)
+	}
+	c1.send(net.Call, r.sid, idB, c16Hello, 6100, svStr("x"))
+	if m := c1.waitSeen(6100, 5*time.Second); m == nil || m.Header.Type != net.Reply {
+		die("the other object does not answer after the removal")
+	}
+	fmt.Println("C16-BUSY-OK")
+	os.Exit(0)
+}
+
+// c16BusyRemove runs the scenario above in a child process and judges it from outside.
+func c16BusyRemove(res *hx.Result) {
+	ctx, cancel := context.WithTimeout(context.Background(), 90*time.Second)
+	defer cancel()
+	out, err := exec.CommandContext(ctx, os.Args[0], "c16-busy-remove").CombinedOutput()
+	text := string(out)
+	res.Count("busy-remove", true)
+	res.Dist("busy-object-removal-child")
+	if err == nil && strings.Contains(text, "C16-BUSY-OK") {
+		if !strings.Contains(text, "sender blocked in serviceImpl.Receive: true") {
+			res.Notes = append(res.Notes, "busy-object removal: no sender was seen blocked in Receive before the removal (scenario ran without the in-flight message)")
+		}
+		return
+	}
+	if len(text) > 1500 {
+		text = text[:1500]
+	}
+	res.Fail("process-dies-or-stalls-when-a-busy-object-is-removed", fmt.Sprintf(
+		"object A busy inside its method, %d calls queued in its mailbox, one more sender blocked in serviceImpl.Receive, then Service.Remove(A): "+
+			"the server process must survive and the other objects must keep answering; child exit: %v; output: %s", c16MailboxCap, err, text))
+}
+
 func runC16(res *hx.Result, rng *hx.Rng, tier string, outdir string) {
 	res.Rule = "operation sequences (about 40 operations) over 6 actors, 3 connections, 2 signals on a real bus.Service: Add in two halves with " +
 		"operations inside Activate, seeds reused to force index collisions, failing activations, Remove of live/removed/pending/failed/unknown " +
@@ -1223,4 +1436,5 @@ func runC16(res *hx.Result, rng *hx.Rng, tier string, outdir string) {
 		rounds = 400
 	}
 	c16Stress(res, rng, rounds)
+	c16BusyRemove(res)
 }
